@@ -14,7 +14,7 @@ CHECKS = {
             "records) checked by TLC on every conversion history; every history printed by the model with the frame and base "
             "it assigns per step is replayed on real Tracks and coordinate objects, concrete triples being mapped back to "
             "geographic coordinates by an independent WGS84 reference in the harness (spec->code + reference abstraction)",
-            "TLC: denotation preserved, real base recorded, base changed only by projections on all histories of 5 (thorough 7) "
+            "TLC: denotation preserved, real base recorded, base changed only by projections on all histories of 5 (thorough 6) "
             "track-level conversions (refuted variant as self-test). Every history is replayed for 4 (12) assignments of "
             "positions / bases from a lattice holding the antimeridian, the equator, +-89.9 degrees and heights -1 km..10 km "
             "(France for Lambert-93): geographic and Earth-centred states must denote the original position to 1e-9 degree of arc "
